@@ -202,6 +202,37 @@ def run_shard(spec, res):
                 res.count("solver_gave_up")
             except claripy.errors.ClaripyError as ex:
                 res.violation({"kind": "model-value", "what": "query-raised", "family": fam, "solver": sname, "constraints": cons_d, "expr": e_d, "observed": repr(ex)[:200], "tb": traceback.format_exc()[-1200:]})
+        # values must come from *this* solver's models: branch, constrain one side, let the sibling solve, ask again
+        if fam == "bv" and exprs_d and rng.random() < 0.5:
+            try:
+                e_d = exprs_d[0]
+                e = exprs[0]
+                if isinstance(e, claripy.ast.Base) and e.symbolic:
+                    wv = fpref.sort_of(e_d)[1]
+                    # a solver of its own that has seen exactly one model so far
+                    s = scls()
+                    s.add(cons)
+                    first = s.eval(e, 1)[0]
+                    sib = s.branch()
+                    # a constraint the value seen so far satisfies (so cached models survive it), but not every value
+                    extra_d = rng.choice([["ule", e_d, ["bvv", first, wv]], ["uge", e_d, ["bvv", first, wv]], ["eq", ["and", e_d, ["bvv", 1, wv]], ["bvv", first & 1, wv]]])
+                    s.add([build(extra_d)])
+                    for _ in range(2):
+                        sib.eval(e, rng.choice([2, 4]))
+                        sib.max(e)
+                        sib.min(e)
+                    cons2 = cons_d + [extra_d]
+                    for v in s.eval(e, rng.choice([1, 3, 6])):
+                        judge_value(fam, cons2, e_d, v, "eval-after-sibling-solved", sname)
+                    for op in ("min", "max"):
+                        v = getattr(s, op)(e)
+                        judge_value(fam, cons2, e_d, v & ((1 << wv) - 1), op + "-after-sibling-solved", sname)
+                    res.count("sibling_scenarios")
+                    cons_d = cons2
+            except claripy.errors.UnsatError:
+                res.violation({"kind": "model-value", "what": "UnsatError-on-satisfiable", "family": fam, "solver": sname, "constraints": cons_d, "expr": exprs_d[0], "op": "after-sibling-solved"})
+            except (claripy.errors.ClaripyZ3Error, claripy.errors.ClaripySolverInterruptError):
+                res.count("solver_gave_up")
         # batch_eval: joint feasibility
         sym = [(d, e) for d, e in zip(exprs_d, exprs) if isinstance(e, claripy.ast.Base) and e.symbolic]
         if len(sym) >= 2:
